@@ -34,7 +34,7 @@ U = 2.0 ** -53
 pi = math.pi
 
 BLACKMAN_ALPHAS = [0.16, 0.0, 0.1, 0.25, 2.0 * 1430 / 18608]
-COS_ALPHAS = [1, 1.5, 2, 3]
+COS_ALPHAS = [1, 1.5, 2, 3, 0, 4]      # 0: the all-ones window (0.0 ** 0 == 1), end-points included
 
 
 def closed(name, n, N, alpha):
